@@ -160,7 +160,8 @@ def pkg_of(s):
     return s._thermo.mixture.pkg
 
 def same_chem(a, b):
-    return a._imol._chemicals is b._imol._chemicals
+    c = a._imol._chemicals
+    return c is b._imol._chemicals and c is a._thermo.chemicals and c is b._thermo.chemicals
 
 def resolve(objs, op):
     """op with indices reduced modulo the table size, or ['nop'] when the combination is outside the modelled subset.
